@@ -565,6 +565,17 @@ const SIG_ANCESTOR: &str = "c12:move-to-ancestor-parent-locked";
 const SIG_MIXED_C03: &str = "c03:mixed-set-cdata-drops-children";
 const SIG_MIXED_C04: &str = "c04:mixed-set-cdata-drops-children";
 const SIG_MIXED_C05: &str = "c05:mixed-set-cdata-drops-children";
+// families found by this scenario (NOT in the task's list; proposed signatures, see the report)
+const SIG_RMSELF: &str = "c12:remove-self-deadlock";
+const SIG_DANGLING_RENAME: &str = "c06:rename-rewrites-dangling-prefix";
+const SIG_DUP_ROOT: &str = "c13:duplicate-drops-root-attributes-and-comment";
+const SIG_XMLNS_LOAD: &str = "c10:edited-xmlns-breaks-load";
+const SIG_LAST_FILE: &str = "c03:remove-last-file-keeps-children-attached";
+const SIG_SN_SPLIT: &str = "c10:short-name-restricted-file-set";
+/// (C03 signature, C10 signature) of the three file-set families
+const SIG_STALE_FILE: (&str, &str) = ("c03:add-to-removed-file", "c10:add-to-removed-file");
+const SIG_ROOT_UNFILED: (&str, &str) = ("c03:root-removed-from-file", "c10:root-removed-from-file");
+const SIG_SPLIT_MOVE: (&str, &str) = ("c03:move-keeps-descendant-file-sets", "c10:move-keeps-descendant-file-sets");
 
 /// one model's tree as the harness sees it through `sub_elements()`: (depth, element, index of the parent entry)
 struct MSnap {
@@ -608,6 +619,10 @@ pub struct Checker {
     prev_mut: Option<(String, bool)>,
     pairs: Vec<(Element, Element)>,
     dups: Vec<(AutosarModel, Vec<(ArxmlFile, String)>)>,
+    /// former content of a root whose last file was removed (children keep their parent pointer)
+    emptied: HashSet<usize>,
+    /// a file-set trigger of a known family happened earlier in this history: later C10 / file-scoped C03 failures belong to it
+    files_sticky: Option<(&'static str, &'static str)>,
 }
 
 fn walk(e: &Element, depth: usize, parent: Option<usize>, out: &mut Vec<(usize, Element, Option<usize>)>) {
@@ -721,7 +736,19 @@ impl Checker {
             prev_mut: None,
             pairs: vec![],
             dups: vec![],
+            emptied: HashSet::new(),
+            files_sticky: None,
         }
+    }
+
+    /// the root element carries a comment or attributes other than the three default ones
+    fn root_decorated(&self, k: usize, xmlns_only: bool) -> bool {
+        let root = self.w.models[k].root_element();
+        let val = |a: AttributeName| root.attribute_value(a).and_then(|v| v.string_value());
+        let xmlns_bad = val(AttributeName::xmlns).as_deref() != Some("http://autosar.org/schema/r4.0")
+            || val(AttributeName::xmlnsXsi).as_deref() != Some("http://www.w3.org/2001/XMLSchema-instance")
+            || !val(AttributeName::xsiSchemalocation).is_some_and(|v| v.starts_with("http://autosar.org/schema/r4.0 AUTOSAR_") && v.ends_with(".xsd"));
+        if xmlns_only { xmlns_bad } else { xmlns_bad || root.comment().is_some() || root.attributes().count() != 3 }
     }
 
     fn on(&self, p: &str) -> bool {
@@ -775,7 +802,7 @@ impl Checker {
     }
 
     // ---- C03 ----
-    fn c03_tree(&self, snaps: &[MSnap], out: &mut Vec<Failure>) {
+    fn c03_tree(&self, snaps: &[MSnap], files_sig: Option<(&'static str, &'static str)>, out: &mut Vec<Failure>) {
         for s in snaps {
             let m = &self.w.models[s.k];
             let pre = &s.pre;
@@ -834,7 +861,11 @@ impl Checker {
                 let got: Vec<(usize, Element)> = f.elements_dfs().collect();
                 let want: Vec<&(usize, Element, Option<usize>)> = pre.iter().filter(|x| x.1.file_membership().map(|(_, s)| s.contains(&wf)).unwrap_or(false)).collect();
                 if !(got.len() == want.len() && got.iter().zip(want.iter()).all(|((gd, ge), (wd, we, _))| gd == wd && ge == we)) {
-                    out.push(Failure::new("C03", "dfs-file", format!("m{} file f{}: ArxmlFile::elements_dfs() yields {} entries, {} elements have the file in their effective file set", s.k, self.w.files.iter().position(|x| *x == f).unwrap_or(usize::MAX), got.len(), want.len())));
+                    let msg = format!("m{} file f{}: ArxmlFile::elements_dfs() yields {} entries, {} elements have the file in their effective file set", s.k, self.w.files.iter().position(|x| *x == f).unwrap_or(usize::MAX), got.len(), want.len());
+                    out.push(match files_sig {
+                        Some((c03, _)) => Failure::known("C03", c03, msg),
+                        None => Failure::new("C03", "dfs-file", msg),
+                    });
                 }
             }
         }
@@ -863,7 +894,7 @@ impl Checker {
             }
             // children dropped by `cdata` on a MIXED element keep their parent pointer (known finding): a successful rename
             // through such a handle would rewrite the live index, so only the read-only calls are probed for them
-            let read_only = self.dropped.contains(&i);
+            let read_only = self.dropped.contains(&i) || self.emptied.contains(&i);
             if !read_only && quiet(|| e.create_sub_element(ElementName::Category).is_ok()).unwrap_or(true) {
                 bad.push("create_sub_element");
             }
@@ -879,6 +910,8 @@ impl Checker {
                 let msg = format!("stale handle {} (not reachable from any root): {} returned Ok (or panicked)", self.nm(&e), bad.join(", "));
                 if self.dropped.contains(&i) {
                     out.push(Failure::known("C03", SIG_MIXED_C03, msg));
+                } else if self.emptied.contains(&i) {
+                    out.push(Failure::known("C03", SIG_LAST_FILE, msg));
                 } else {
                     out.push(Failure::new("C03", &format!("stale:{}", bad[0]), msg));
                 }
@@ -1005,7 +1038,7 @@ impl Checker {
     }
 
     // ---- C06 ----
-    fn c06(&self, req: &str, refs: &[RefPre], subj_sub: &HashSet<Element>, cross_model: bool, out: &mut Vec<Failure>) {
+    fn c06(&self, req: &str, refs: &[RefPre], subj_sub: &HashSet<Element>, cross_model: bool, renamed_from: Option<&str>, out: &mut Vec<Failure>) {
         for rp in refs {
             if !self.reach.contains(&self.id(&rp.r)) {
                 continue;
@@ -1029,7 +1062,9 @@ impl Checker {
                     }
                 }
             } else if now != rp.text {
-                out.push(Failure::new("C06", "text-changed", format!("after `{req}`: reference {} did not designate the renamed/moved element or anything below it, but its text changed from {:?} to {:?}", self.nm(&rp.r), rp.text, now)));
+                let dangling_below = rp.by_path.is_none() && renamed_from.is_some_and(|p| rp.text.as_ref().is_some_and(|t| t.starts_with(&format!("{p}/"))));
+                let mk = if dangling_below { |m: String| Failure::known("C06", SIG_DANGLING_RENAME, m) } else { |m: String| Failure::new("C06", "text-changed", m) };
+                out.push(mk(format!("after `{req}`: reference {} did not designate the renamed/moved element or anything below it, but its text changed from {:?} to {:?}", self.nm(&rp.r), rp.text, now)));
                 return;
             }
         }
@@ -1107,6 +1142,7 @@ impl Checker {
                                     out.push(Failure::new("C10", "file-content", format!("file f{j}: its text loads into {} elements, {} elements are attributed to the file (or names/depths differ)", got.len(), want.len())));
                                 }
                             }
+                            Some(Err(e)) if self.root_decorated(s.k, true) => out.push(Failure::known("C10", SIG_XMLNS_LOAD, format!("file f{j}: after the xmlns / xmlns:xsi / xsi:schemaLocation attribute of <AUTOSAR> was edited, the serialize() output does not load: {e}"))),
                             Some(Err(e)) => out.push(Failure::new("C10", "file-load", format!("file f{j}: serialize() output does not load on its own: {e}"))),
                             None => out.push(Failure::new("C10", "file-load", format!("file f{j}: loading the serialize() output panics"))),
                         }
@@ -1137,13 +1173,16 @@ impl Checker {
         let now: HashSet<usize> = self.live[p.k].iter().copied().collect();
         let gone: Vec<usize> = p.before.iter().copied().filter(|i| !now.contains(i)).collect();
         let want: Vec<usize> = if p.last_file { p.before.iter().copied().filter(|i| Some(*i) != self.w.root_id[p.k]).collect() } else { p.doomed.clone() };
+        let mut sn_only = false;
         if gone != want {
             let extra: Vec<usize> = gone.iter().copied().filter(|i| !want.contains(i)).take(5).collect();
             let missing: Vec<usize> = want.iter().copied().filter(|i| !gone.contains(i)).take(5).collect();
-            out.push(Failure::new("C10", "rmfile-elements", format!("after `{req}`: removed although also in another file: {:?}; kept although only in the removed file: {:?}", extra, missing)));
+            sn_only = extra.is_empty() && want.iter().filter(|i| !gone.contains(i)).all(|i| self.w.elems[*i].element_name() == ElementName::ShortName);
+            let msg = format!("after `{req}`: removed although also in another file: {:?}; kept although only in the removed file: {:?}", extra, missing);
+            out.push(if sn_only { Failure::known("C10", SIG_SN_SPLIT, format!("{msg} (SHORT-NAME elements with a file set of their own cannot be removed)")) } else { Failure::new("C10", "rmfile-elements", msg) });
         }
         for (f, ser) in &p.others {
-            if file_ser_norm(f) != *ser {
+            if file_ser_norm(f) != *ser && !sn_only {
                 out.push(Failure::new("C10", "rmfile-other-file", format!("after `{req}`: the text of file f{} changed", self.w.files.iter().position(|x| x == f).unwrap_or(usize::MAX))));
             }
         }
@@ -1225,7 +1264,9 @@ impl Checker {
                 for f in m.files() {
                     let other = d.files().find(|x| x.filename() == f.filename());
                     let same = other.as_ref().is_some_and(|o| file_ser(o).ok() == file_ser(&f).ok());
-                    if !same {
+                    if !same && self.root_decorated(k, false) {
+                        out.push(Failure::known("C13", SIG_DUP_ROOT, format!("duplicate() of m{k}: <AUTOSAR> carries a comment / non-default attributes, file {:?} serializes differently in the duplicate", f.filename())));
+                    } else if !same {
                         out.push(Failure::new("C13", "dup-text", format!("duplicate() of m{k}: file {:?} serializes differently in the duplicate (or is missing)", f.filename())));
                     }
                 }
@@ -1309,6 +1350,7 @@ impl Checker {
             _ => None,
         };
         let subj_ident = subj.as_ref().is_some_and(|x| x.is_identifiable());
+        let renamed_from: Option<String> = if verb == "rename" { subj.as_ref().and_then(|x| x.path().ok()) } else { None };
         let subj_sub: HashSet<Element> = subj.as_ref().map(|x| x.elements_dfs().map(|y| y.1).collect()).unwrap_or_default();
         let dest: Option<Element> = if verb == "move" || verb == "copy" { self.w.h_elem(words.get(1).unwrap_or(&"")) } else { None };
         let cross_model = match (&dest, &subj) {
@@ -1345,6 +1387,35 @@ impl Checker {
         } else {
             None
         };
+        let files_trigger: Option<(&'static str, &'static str)> = match verb {
+            "addfile" => match (handles.first().and_then(|x| x.model().ok()), self.w.h_file(words.get(2).unwrap_or(&""))) {
+                (Some(m), Some(f)) if !m.files().any(|x| x == f) => Some(SIG_STALE_FILE),
+                _ => None,
+            },
+            "rmfromfile" => match handles.first() {
+                Some(x) if matches!(x.parent(), Ok(None)) => Some(SIG_ROOT_UNFILED),
+                _ => None,
+            },
+            "move" => match (&dest, &subj) {
+                (Some(p), Some(x)) => match p.file_membership() {
+                    Ok((_, d)) if x.elements_dfs().skip(1).any(|(_, e)| matches!(e.file_membership(), Ok((true, set)) if !set.is_subset(&d))) => Some(SIG_SPLIT_MOVE),
+                    _ => None,
+                },
+                _ => None,
+            },
+            _ => None,
+        };
+        if verb == "rmfile" {
+            if let (Some((k, m)), Some(f)) = (self.w.h_model(words.get(1).unwrap_or(&"")), self.w.h_file(words.get(2).unwrap_or(&""))) {
+                if m.files().count() == 1 && m.files().next().as_ref() == Some(&f) {
+                    let root = self.w.root_id[k];
+                    if let Some(l) = self.live.get(k) {
+                        let ids: Vec<usize> = l.iter().copied().filter(|i| Some(*i) != root).collect();
+                        self.emptied.extend(ids);
+                    }
+                }
+            }
+        }
         let rmfile_pre = if verb == "rmfile" && self.kind == Kind::Files && self.on("C10") { self.rmfile_pre(&words) } else { None };
         let c13 = self.kind == Kind::Copy && self.on("C13");
         let src_ser: Option<String> = if c13 && verb == "copy" { subj.as_ref().map(|x| x.serialize()) } else { None };
@@ -1386,13 +1457,15 @@ impl Checker {
             out.push(Failure::new("C11", verb, format!("`{req}` answers `{ans}` but the dump changed")));
         }
         // ---------- state oracles ----------
+        let files_sig = if ok { files_trigger } else { None }.or(self.files_sticky);
         let snaps = self.traverse();
         self.refresh_live(&snaps);
+        self.emptied.retain(|i| !self.reach.contains(i));
         if ok && !mixed_kids.is_empty() {
             self.dropped.extend(mixed_kids.iter().copied().filter(|i| !self.reach.contains(i)));
         }
         if self.on("C03") {
-            self.c03_tree(&snaps, &mut out);
+            self.c03_tree(&snaps, files_sig, &mut out);
             self.c03_stale(&mut out);
         }
         if !self.stop_c456 {
@@ -1423,7 +1496,7 @@ impl Checker {
                 out.extend(v);
             }
             if !self.stop_c456 && ok && (verb == "rename" || verb == "move") && self.on("C06") && !refs_pre.is_empty() {
-                self.c06(req, &refs_pre, &subj_sub, cross_model, &mut out);
+                self.c06(req, &refs_pre, &subj_sub, cross_model, renamed_from.as_deref(), &mut out);
             }
             if mixed_hit {
                 // the index / referrer lists stay inconsistent from here on
@@ -1485,10 +1558,22 @@ impl Checker {
             }
         }
         if self.kind == Kind::Files && self.on("C10") {
-            self.c10(&snaps, &mut out);
+            let mut v = vec![];
+            self.c10(&snaps, &mut v);
+            if let Some((_, c10)) = files_sig {
+                // one report for the family; the state stays inconsistent afterwards
+                if let Some(first) = v.into_iter().next() {
+                    out.push(Failure::known("C10", c10, format!("after `{req}`: {}", first.msg)));
+                }
+            } else {
+                out.extend(v);
+            }
             if let Some(p) = &rmfile_pre {
                 self.rmfile_post(req, p, &mut out);
             }
+        }
+        if files_sig.is_some() {
+            self.files_sticky = files_sig;
         }
         // the probes / checks themselves must not have changed anything
         let end = self.w.dump();
@@ -1646,7 +1731,9 @@ fn wait_for(sh: &Shared, started: Instant, total: Duration) {
                     }
                 }
                 let what = if hung { format!("`{req}` did not return within {} s (or the oracle calls following it hang)", REQ_TIMEOUT.as_secs()) } else { format!("history did not finish within {} s; last request issued: `{req}`", total.as_secs()) };
-                g.fails.push((Failure::new("C12", "timeout", what), h));
+                let w: Vec<&str> = req.split(' ').collect();
+                let f = if hung && w.len() == 3 && w[0] == "remove" && w[1] == w[2] { Failure::known("C12", SIG_RMSELF, what) } else { Failure::new("C12", "timeout", what) };
+                g.fails.push((f, h));
                 g.stats.push(("timeouts".to_string(), 1));
                 g.done = true;
                 return;
@@ -1668,7 +1755,7 @@ impl Reporter {
         self.nfail += 1;
         let c = self.shrunk_per_key.entry(f.key.clone()).or_insert(0);
         *c += 1;
-        let do_shrink = *c <= 3 && f.key != "C12:timeout" && f.key != "C12:panic-oracle";
+        let do_shrink = *c <= 3 && f.key != "C12:timeout" && f.key != "C12:panic-oracle" && f.sig != Some(SIG_RMSELF);
         let t0 = Instant::now();
         let (reqs, reproduced) = if do_shrink { shrink(hist, &f.key, self.prop.clone(), kind) } else { (hist.iter().map(|x| x.0.clone()).collect(), false) };
         if do_shrink {
@@ -2192,14 +2279,14 @@ impl Gen {
     }
 
     /// would moving/copying the non-identifiable `x` below `p` put an identifiable element onto an occupied path?
-    fn would_collide(&self, p: &Element, x: &Element) -> bool {
+    fn would_collide(&self, p: &Element, x: &Element, copy: bool) -> bool {
         let Ok(m) = p.model() else { return false };
         let src = x.parent().ok().flatten().map(|q| Self::prefix_of(&q)).unwrap_or_default();
         let dst = Self::prefix_of(p);
         for (_, e) in x.elements_dfs() {
             if let Ok(path) = e.path() {
                 if let Some(suffix) = path.strip_prefix(&src) {
-                    if m.get_element_by_path(&format!("{dst}{suffix}")).is_some_and(|o| o != e) {
+                    if m.get_element_by_path(&format!("{dst}{suffix}")).is_some_and(|o| copy || o != e) {
                         return true;
                     }
                 }
@@ -2472,7 +2559,7 @@ impl Gen {
                     if !fits {
                         return false;
                     }
-                    if !xe.is_identifiable() && !allow_col && !same_parent && self.would_collide(p, &xe) {
+                    if !xe.is_identifiable() && !allow_col && (copy || !same_parent) && self.would_collide(p, &xe, copy) {
                         return false;
                     }
                     if !copy && !same_parent && !allow_split && self.split_move(p, &xe) {
@@ -2509,7 +2596,7 @@ impl Gen {
                 }
             }
         }
-        if !xe.is_identifiable() && !self.allow_collision && self.would_collide(&pe, &xe) {
+        if !xe.is_identifiable() && !self.allow_collision && self.would_collide(&pe, &xe, copy) {
             return;
         }
         if !copy && !self.allow_split_move && self.split_move(&pe, &xe) {
@@ -2576,7 +2663,9 @@ impl Gen {
         let mf = self.model_files(0);
         let all = self.ck.w.files.len();
         let f = if !mf.is_empty() && (!self.allow_stale_file || self.rng.chance(4, 5)) { mf[self.rng.below(mf.len())] } else { self.rng.below(all.max(1)) };
-        if !self.allow_split_move && self.el(x).element_name() == ElementName::ShortName {
+        // splitting below an identifiable parent gives its SHORT-NAME a restricted file set of its own (see the report):
+        // only in flagged histories
+        if !self.allow_split_move && (self.el(x).element_name() == ElementName::ShortName || self.el(x).parent().ok().flatten().is_some_and(|p| p.is_identifiable())) {
             return;
         }
         if !add && !self.allow_last_file {
@@ -2874,7 +2963,7 @@ fn spawn_history(seed: u64, kind: Kind, thorough: bool, prop: Option<String>) ->
     std::thread::spawn(move || {
         let mut rng = Rng::new(seed);
         let mut flag = |pct: u64| rng.chance(pct, 1000);
-        let (a, b, c, d, e, f, f2, f3, f4) = (flag(9), flag(15), flag(15), flag(7), flag(15), flag(12), flag(12), flag(12), flag(12));
+        let (a, b, c, d, e, f, f2, f3, f4) = (flag(15), flag(15), flag(15), flag(7), flag(15), flag(12), flag(12), flag(12), flag(12));
         sh2.lock().unwrap().flags = [(a, "collision"), (b, "ancestor-move"), (c, "mixed-cdata"), (d, "remove-self"), (e, "dangling-rename"), (f, "last-file"), (f2, "stale-file"), (f3, "root-attr"), (f4, "split-move")].iter().filter(|x| x.0).map(|x| x.1).collect::<Vec<_>>().join("+");
         let mut g = Gen {
             rng,
